@@ -10,6 +10,7 @@ mod numeric;
 mod queue;
 mod resp;
 mod status;
+mod suffix;
 mod util;
 
 #[global_allocator]
@@ -32,6 +33,7 @@ fn main() {
         "resp-rows-c20" => resp::rows_c20(rest),
         "queue-edges" => queue::replay_edges(rest),
         "queue-trace" => queue::record_trace(rest),
+        "suffix-rows" => suffix::rows(rest),
         "status-edges" => status::replay_edges(rest),
         "status-trace" => status::record_trace(rest),
         _ => {
